@@ -1635,6 +1635,7 @@ def gen_C10(tier, rng):
     g = 0
     for n in range(count):
         h = History(rng, exact=True, max_rank=2, track_p=0.85)
+        h.start_p = 0.3 if n % 2 else 0.0
         for _ in range(rng.randint(2, 4)):
             h.leaf(h.rand_dims(rng.randint(1, 2)))
         passes = []          # instruction indices of the backward instructions
@@ -2094,11 +2095,10 @@ _HUGE_BUDGET = [2]
 def model_case(rng, tier):
     kind = rng.choice(["dense", "dense", "dense", "conv"])
     big = rng.random() < 0.12      # occasionally: wider layers, larger batches, longer runs
-    # rarely, and in the thorough tier only (the list-based model needs minutes for it): more than a thousand
-    # trainable values in one model
-    huge = tier == "thorough" and _HUGE_BUDGET[0] > 0 and rng.random() < 0.01
+    # rarely: more than a thousand trainable values in one model; the list-based Coq model would need minutes
+    # for it, so these programs are run through corgi only (skip_model) and judged by the reference predicates
+    huge = rng.random() < 0.02
     if huge:
-        _HUGE_BUDGET[0] -= 1
         kind, big = "dense", False
     layers = []
     if kind == "dense":
@@ -2211,6 +2211,9 @@ def model_case(rng, tier):
     c = case("model", ins, "%s:%s:%s" % (kind, cost, "varying_batches" if vary and len(set(shapes_seen)) > 1
                                          else "batch_" + shapes_seen[0]), rtol=1e-7)
     c["model_meta"] = meta
+    if huge:
+        c["skip_model"] = True
+        c["cls"] = "dense:%s:over_1000_parameters" % cost
     return c
 
 
@@ -2300,6 +2303,34 @@ def post_train_step(cases, rust, model):
             n += 1
             mult = 2.0 if it["double"] else 1.0
             bad = None
+            if sum(len(p) for p in params) > 200:
+                # many parameters: directional derivatives along a few random directions instead of one
+                # finite difference per parameter
+                drng = __import__("random").Random(len(params[0]) * 7919 + n)
+                for _ in range(3):
+                    tau = [[drng.uniform(-1, 1) for _ in p] for p in params]
+                    hstep = 1e-6
+                    try:
+                        plus = [[x + hstep * t for x, t in zip(p, tp)] for p, tp in zip(params, tau)]
+                        minus = [[x - hstep * t for x, t in zip(p, tp)] for p, tp in zip(params, tau)]
+                        o1, od = ref_forward(layers, plus, it["x"], it["xd"], {})
+                        o2, od = ref_forward(layers, minus, it["x"], it["xd"], {})
+                        dd = (ref_loss(meta["cost"], o1, od, it["t"]) - ref_loss(meta["cost"], o2, od, it["t"])) / (2 * hstep)
+                    except (OverflowError, ValueError, ZeroDivisionError):
+                        continue
+                    step = sum((a - b) * t for pa, pb, tp in zip(after, before, tau)
+                               for a, b, t in zip(pa[2], pb[2], tp))
+                    want = -meta["lr"] * mult * dd
+                    scale = sum(abs((a - b) * t) for pa, pb, tp in zip(after, before, tau)
+                                for a, b, t in zip(pa[2], pb[2], tp)) + abs(want) + 1e-9
+                    if abs(step - want) > 1e-4 * scale:
+                        bad = "the parameter step paired with a random direction is %r; -lr times the directional " \
+                              "derivative of the current loss is %r" % (step, want)
+                        break
+                if bad:
+                    fails.append({"case": i, "confirmed": True, "reason": bad})
+                    break
+                continue
             for pj in range(len(params)):
                 if after[pj][1] != before[pj][1] or after[pj][0] != 1 or after[pj][3]:
                     bad = "parameter %d after the update: tracked=%s dims %s gradient present=%s" % (
